@@ -152,7 +152,9 @@ func c12Exec(t map[string]any, idx int) map[string]any {
 	if place != "whole" {
 		start = 2048 * 512
 		part = 1
-		devSize = start + partSize + 64*512
+		// the partition ends on the last usable sector of a GPT ("use the rest of the disk"): 33 sectors
+		// of backup array and header follow it
+		devSize = start + partSize + 33*512
 	}
 	d := memdev.New(devSize)
 	if place != "whole" {
